@@ -6,20 +6,14 @@ from pathlib import Path
 sys.path.insert(0, str(Path(__file__).resolve().parent))
 import lib  # noqa: E402
 
-# (translator script, generated file)
-GENERATORS = [
-    ('gen_wsd_params', 'Wsd/Gen_Params.v'),
-    ('gen_multikey_tables', 'Multikey/Gen_Tables.v'),
-]
+# every harness/impl/gen_*.py is a translator; it names its output file in its "rel" key
 
 
 def main():
     t0 = time.time()
     ctx = lib.Ctx('C00', 'quick', 1)
-    for script, rel in GENERATORS:
-        if not (lib.VERIF / 'harness' / 'impl' / f'{script}.py').exists():
-            continue
-        ctx.regenerate(script, rel)
+    for f in sorted((lib.VERIF / 'harness' / 'impl').glob('gen_*.py')):
+        ctx.regenerate(f.stem)
     ok, log, dt = ctx.coq_make(['all'], timeout=3400)
     print(log[-3000:])
     print(f'setup: coq build {"ok" if ok else "FAILED"} in {time.time() - t0:.0f}s')
